@@ -122,6 +122,17 @@ pub trait IntResAlias {
     fn ira_plain(&self, code: i32) -> AliasRes<u64, u32>;
 }
 
+/// No trait-level attribute: one method opts into integer results, the next one must not inherit it.
+#[cglue_trait]
+pub trait IntResMixed {
+    #[int_result]
+    fn irm_marked(&self, code: i32) -> Result<u64, std::io::Error>;
+    fn irm_plain(&self, code: i32, non_os: bool) -> Result<u64, std::io::Error>;
+    #[int_result]
+    fn irm_marked_unit(&self, fail: bool) -> Result<(), ()>;
+    fn irm_plain_pair(&self, code: i32) -> Result<Pair, MyErr>;
+}
+
 /// By-value receivers.
 #[cglue_trait]
 pub trait Consume {
@@ -171,7 +182,13 @@ pub trait ChildrenMore {
     type MChild: Basic + 'static;
 
     fn m_consume(self, salt: u64) -> Self::MChild;
+    /// by-value call whose wrapped result sits inside a Result: on Err the context is not carried back
+    fn m_try(self, fail: bool) -> Result<Self::MChild, ()>;
+    #[no_int_result]
+    fn m_try_plain(self, fail: bool) -> Result<Self::MChild, ()>;
     fn m_res(&self, fail: bool) -> Result<Self::MChild, ()>;
+    #[no_int_result]
+    fn m_res_plain(&self, fail: bool) -> Result<Self::MChild, ()>;
     fn m_peek(&self) -> u64;
 }
 
@@ -478,6 +495,28 @@ macro_rules! implementor {
             }
         }
 
+        impl IntResMixed for $name {
+            fn irm_marked(&self, code: i32) -> Result<u64, std::io::Error> {
+                self.core.enter("irm_marked", code as u64, &[]);
+                if code != 0 { Err(std::io::Error::from_raw_os_error(code)) } else { Ok(self.core.mix(21)) }
+            }
+            fn irm_plain(&self, code: i32, non_os: bool) -> Result<u64, std::io::Error> {
+                self.core.enter("irm_plain", d2(code as u64, non_os as u64), &[]);
+                if non_os { Err(std::io::Error::new(std::io::ErrorKind::InvalidData, "plain")) }
+                else if code != 0 { Err(std::io::Error::from_raw_os_error(code)) }
+                else { Ok(self.core.mix(22)) }
+            }
+            fn irm_marked_unit(&self, fail: bool) -> Result<(), ()> {
+                self.core.enter("irm_marked_unit", fail as u64, &[]);
+                if fail { Err(()) } else { self.core.mix(23); Ok(()) }
+            }
+            fn irm_plain_pair(&self, code: i32) -> Result<Pair, MyErr> {
+                self.core.enter("irm_plain_pair", code as u64, &[]);
+                // not integer-coded: code 0 stays 0 (MyErr(0) would be rewritten by the int encoding)
+                if code % 2 == 0 { Err(MyErr(code)) } else { Ok(Pair { a: self.core.mix(24), b: code, c: 1 }) }
+            }
+        }
+
         impl IntResAlias for $name {
             fn ira_io(&self, code: i32) -> AliasRes<u64, std::io::Error> {
                 self.core.enter("ira_io", code as u64, &[]);
@@ -600,9 +639,21 @@ macro_rules! implementor {
                 self.core.mix(salt);
                 self
             }
+            fn m_try(self, fail: bool) -> Result<$name, ()> {
+                self.core.enter("m_try", fail as u64, &[]);
+                if fail { Err(()) } else { self.core.mix(0x7E1); Ok(self) }
+            }
+            fn m_try_plain(self, fail: bool) -> Result<$name, ()> {
+                self.core.enter("m_try_plain", fail as u64, &[]);
+                if fail { Err(()) } else { self.core.mix(0x7E2); Ok(self) }
+            }
             fn m_res(&self, fail: bool) -> Result<$name, ()> {
                 self.core.enter("m_res", fail as u64, &[]);
                 if fail { Err(()) } else { Ok($name::new(self.core.child(0x3E5))) }
+            }
+            fn m_res_plain(&self, fail: bool) -> Result<$name, ()> {
+                self.core.enter("m_res_plain", fail as u64, &[]);
+                if fail { Err(()) } else { Ok($name::new(self.core.child(0x3E6))) }
             }
             fn m_peek(&self) -> u64 {
                 self.core.enter("m_peek", 0, &[]);
